@@ -512,6 +512,7 @@ func setup() {
 	regMalformedTable()
 	regSparseIndexLists()
 	regDist()
+	regTextVariants()
 }
 
 func main() {
@@ -529,13 +530,20 @@ func main() {
 			"for malformed input: per reader one valid encoding (writer's own output and its compact form), EVERY truncation, single-byte deletion and single-byte substitution over the JSON/table alphabet, every string of ≤3 symbols over a reduced alphabet, " +
 			"every single-node structural mutation of the JSON tree, and every token-level variant (ragged/non-numeric/negative/out-of-range/duplicate index/wrong header) of 2×2 table files; " +
 			"for every sparse reader (JSON and table file, 4-vectors and 2×2 matrices, all 9 element types) EVERY index list of length ≤4 over {-1,0,1,2,n-1,n} in every order (duplicates at every distance, out-of-range values at every position) with values from {0,1,2} (quick: length 4 for Float64/Real64/Int with values {0, 1|2}), which must be rejected iff an index is out of range or repeated and otherwise decode to exactly the described object. " +
-			"A round-trip case is non-trivial/distinct by (reader, codec, type, object description, receiver state) when the encoder produced bytes and the decoder was run on them; a malformed case is non-trivial/distinct by (reader, input bytes) when the bytes differ from every valid encoding used and the reader was run on them.",
+			"Round trips are decoded into receivers in every previous state from {fresh zero value, used 2x2/2-vector, smaller (1x1/1), larger (4x4/5), same shape with junk, a transposed off-origin 2x2 view of a 3x3 matrix / Slice(1,3) of a 4-vector} (quick: the states beyond fresh/used for the value 1 and objects of ≤4 elements; gzip files: fresh only). " +
+			"Equality of the restored object is judged by reading it AND by using it: after a round trip whose read comparison succeeded, a fixed battery of steps of the public API (matrices ~95, thorough ~105; vectors ~77/89; scalars 50, constant scalars 29) is applied to the restored object and, step by step, to a directly built (never serialised) object with the same content - the restored object as operand (M/V add, sub, mul, div with matrices, vectors, scalars; MdotM, MdotV, VdotM, Outer; generic methods and, by reflection, their concrete-typed upper-case twins; receivers of the own and of the other storage family), as source (Set, Clone, T, Slice, Row, Col, Diag, AsVector/AsMatrix, plain/From/joint iterators, Equals, Table, norms, a second round trip through the same codec) and as RECEIVER (the same operations, in place, through T()/Slice()/clone, Swap/Permute*/Tip/SetIdentity/Reset/Append*/Sort, and as receiver of a further UnmarshalJSON followed by MdotM) - every step must end the same way (returns / panics with the same class) and show the same dims, values and non-zero derivatives (integers exactly; floats bitwise or within 1e-12 (float32: 1e-5) relative, because the sparse containers sum in map order; a step on which two directly built objects disagree is ignored). " +
+			"The battery runs after every scalar round trip, after container round trips of the lattice value 1 (quick; objects of >4 elements: full/single-entry/diagonal/zero patterns) resp. of every value for ≤4 elements and every zero pattern of the value 1 beyond (thorough), after view round trips of depth 1 (thorough: ≤2); restored distributions are cloned (compared with the clone of the original) and sent through a second round trip. " +
+			"Text variants: for every reader the writer's output of (every lattice value × vectors of dim ≤3 / matrices up to 2x2 (thorough 3x3) with the quick/thorough zero patterns listed in variants.go; scalars with Real specs of N≤1; every distribution) is transformed into every byte-level variant from {final newline absent, exactly one final newline [strict: must be accepted]; CRLF line ends, trailing/leading blank or tab on every line, tabs or double blanks as separators, blank lines at the beginning/between/at the end, white-space-only last line, each also with the last line unterminated [lenient: an error is accepted]} × {plain, gzip (quick: gzip for the strict variants and CRLF-unterminated)} for table files and {compact, tab-indented, CRLF, surrounding white space, final newline, members sorted / reverse-sorted} [all strict] for JSON and configurations; whatever a reader accepts must be observably equal to the object that was written. " +
+			"A round-trip case is non-trivial/distinct by (reader, codec, type, object description, receiver state) when the encoder produced bytes and the decoder was run on them; a malformed case is non-trivial/distinct by (reader, input bytes) when the bytes differ from every valid encoding used and the reader was run on them; a text variant by (reader, codec, bytes) when the bytes differ from the writer's output and the reader was run on them (evaluations count every decoder run, including the writer's own bytes as control).",
 		Assume: []string{
 			"only finite element values are serialised (NaN/Inf are outside the property)",
 			"a Real scalar's JSON is meant to carry Value, the full gradient if any entry is non-zero and the full Hessian if any entry is non-zero (read off MarshalJSON); sparse Real containers and table files carry values only",
 			"the dense table format has no header: matrices with a zero dimension are required to come back empty, not with their exact dims",
 			"distribution parameters that the config format stores on another scale (exp/log) are compared with relative tolerance 1e-12, the constrained HMM (re-normalised by an iterative solver on import) with 1e-8; all others bitwise; densities with 1e-9",
-			"scalar decoders are given a constructed receiver (NullScalar(t)); containers a zero-value and a previously used receiver",
+			"scalar decoders are given a constructed receiver (NullScalar(t)) or a used one; containers the receiver states listed in the rule",
+			"the use battery compares the restored object with the original reduced to what the format carries: order and N of all-zero derivative blocks of a Real scalar are not part of its JSON (previous assumption), so the reference scalar is built with the carried blocks only",
+			"well-formed table text: a last line without newline (and exactly one final newline) must be accepted; for the other white-space variants (CRLF, trailing/leading blanks, tabs, blank lines) and for a zero-byte file in place of an empty dense object the format is not explicit - the reader may answer with an error, never with a different object or a panic",
+			"what Clone does to a distribution (the clone of a constrained/hierarchical HMM is a plain HMM) is not the codec's matter: the clone of the restored object is compared with the clone of the original",
 			"view construction (Slice/T) and element reads of views are C10's subject: a view that cannot be built or read through ConstAt is not used here",
 		},
 		Run:    parentRun,
